@@ -394,7 +394,7 @@ func (r *runner) applyDML(tbl string, cols []rmkit.Col, before *kTable, op kOp, 
 		det := parts[1] == "1"
 		selfFeed := op.Kind == "upd" && op.SCol == op.Col
 		switch {
-		case op.Kind != "ins" && parts[0] != strconv.Itoa(affected):
+		case (op.Kind == "del" || (op.Kind == "upd" && det)) && parts[0] != strconv.Itoa(affected):
 			r.e.Rep.Disagree(sc, fmt.Sprintf("affected=%d", affected), "affected="+parts[0], line)
 		case det && !(selfFeed && op.Lim > 0) && f["rows"] != after.wire():
 			r.e.Rep.Disagree(sc, "rows="+after.wire(), "rows="+f["rows"], line)
@@ -595,8 +595,8 @@ func (r *runner) runKeylessScenario(sc *kScenario) {
 				}
 			}
 			if sc.Index && sc.Resolve == "theirs" && bothGone && strings.Contains(rr.Err.Error(), "malformed tuple") {
-				r.e.Rep.Known("resolve-keyless-index-both-deleted", "dolt_conflicts_resolve --theirs panics ('malformed tuple') on a keyless table with a secondary index when a conflicted row is absent on both sides: "+rr.Err.Error(), sc)
-				r.e.Rep.Hit("known:resolve-keyless-index-both-deleted")
+				// the shape of the defect repaired in resolveProllyConflicts (replays in corpus/C27): a plain violation
+				r.e.Rep.Violate("resolve-keyless-index-both-deleted", "dolt_conflicts_resolve --theirs panics ('malformed tuple') on a keyless table with a secondary index when a conflicted row is absent on both sides: "+rr.Err.Error(), sc)
 			} else {
 				r.e.Rep.Violate("C27-resolve-error", rr.Err.Error(), sc)
 			}
@@ -663,14 +663,6 @@ func runKeyless(r *runner) {
 			runOne(&sc)
 		}
 	}
-	// witness of known finding resolve-keyless-index-both-deleted (replayed on every run)
-	one, two, three := rmkit.IntV(1), rmkit.IntV(2), rmkit.IntV(3)
-	runOne(&kScenario{
-		Cols: []rmkit.Col{{ID: 1, Ty: 'i'}, {ID: 2, Ty: 'i'}}, Index: true, Resolve: "theirs",
-		Base:   [][]rmkit.Val{{one, one}, {two, two}},
-		Ours:   []kOp{{Kind: "del", Col: 0, V: one}},
-		Theirs: []kOp{{Kind: "del", Col: 0, V: one}, {Kind: "ins", Row: []rmkit.Val{three, three}}},
-	})
 	n := e.N(40, 1200)
 	root := hx.NewRng(e.Seed*0xD6E8FEB86659FD93 ^ e.Rng.U64())
 	for i := 0; i < n; i++ {
